@@ -204,7 +204,7 @@ class Check:
         if only:
             import re
             instances = [i for i in instances if only in i.name or re.search(only, i.name)]
-        s = run_instances(instances, procs=int(os.environ.get('VERIF_PROCS', '16')))
+        s = run_instances(instances, procs=int(os.environ.get('VERIF_PROCS', '16'))) if instances else []
         self.summaries.extend(s)
         self.instances = getattr(self, 'instances', []) + list(instances)
         return s
